@@ -1,4 +1,117 @@
-(* PC09.v — property C09 (placeholder while the proofs are being built) *)
-From SV Require Import Status.
-Theorem C09_placeholder : True. Proof. exact I. Qed.
-Print Assumptions C09_placeholder.
+(* PC09.v — property C09: the audit completes only when every assertion of every contest meets its risk limit.
+   Statements about the model of Status.v (tied to shangrla/core/Audit.py by harness/c09.py on every run).
+   [test ck ak] is what the assertion's configured test returns on that assertion's data (None = raises); it is a
+   parameter: the theorems hold for every test. p-values are Xq: comparisons with NaN are false. *)
+From SV Require Import Status Status_proofs.
+Open Scope Q_scope.
+
+(* Each assertion's recorded p-value and history are exactly what its test returns on its data; keys and risk limits are
+   untouched; proved = (p <= that contest's limit) or already proved; contest.p_values / contest.proved list exactly the
+   assertions' new values. *)
+Theorem C09_recorded :
+  forall (test : Z -> Z -> option (Xq * list Xq)) lens cs cs' pmax,
+  set_p_values test lens cs = SOk (cs', pmax) ->
+  Forall2 (fun c c' =>
+    c_key c' = c_key c /\ c_limit c' = c_limit c /\
+    Forall2 (fun a a' =>
+      a_key a' = a_key a /\
+      test (c_key c) (a_key a) = Some (a_p a', a_hist a') /\
+      a_proved a' = (xle (a_p a') (Fin (c_limit c)) || a_proved a)%bool) (c_asns c) (c_asns c') /\
+    (NoDup (map a_key (c_asns c)) ->
+       c_pvalues c' = map (fun a => (a_key a, a_p a)) (c_asns c') /\
+       c_proved c' = map (fun a => (a_key a, a_proved a)) (c_asns c'))) cs cs'.
+Proof. exact recorded. Qed.
+Print Assumptions C09_recorded.
+
+(* ... and set_p_values does return whenever the sample lists have equal length and every test returns *)
+Theorem C09_recorded_total :
+  forall (test : Z -> Z -> option (Xq * list Xq)) lens cs,
+  lens = true -> (forall c a, In c cs -> In a (c_asns c) -> test (c_key c) (a_key a) <> None) ->
+  exists cs' pmax, set_p_values test lens cs = SOk (cs', pmax).
+Proof. exact set_p_values_total. Qed.
+Print Assumptions C09_recorded_total.
+
+(* Each contest's max_p is the largest p-value among its assertions and the returned value the largest among contests:
+   is_max0 m l  :=  (NaN in l -> m = NaN) /\ (all of l finite and >= 0 -> m finite >= 0, m >= every element,
+                     m = 0 if l is empty, m is an element of l otherwise). *)
+Theorem C09_max :
+  forall (test : Z -> Z -> option (Xq * list Xq)) lens cs cs' pmax,
+  set_p_values test lens cs = SOk (cs', pmax) ->
+  Forall (fun c' => is_max0 (c_maxp c') (map a_p (c_asns c'))) cs' /\ is_max0 pmax (map c_maxp cs').
+Proof. exact maxima. Qed.
+Print Assumptions C09_max.
+
+(* Complete iff every assertion of every contest has p-value at most THAT contest's risk limit (current p-values;
+   a NaN p-value compares false).  Risk limits are nonnegative (check_audit_parameters demands 0 < limit <= 1/2). *)
+Theorem C09_done_iff :
+  forall cs, (forall c, In c cs -> 0 <= c_limit c) ->
+  (summarize_status cs = true <->
+   forall c, In c cs -> forall a, In a (c_asns c) -> xle (a_p a) (Fin (c_limit c)) = true).
+Proof. exact done_iff. Qed.
+Print Assumptions C09_done_iff.
+
+Theorem C09_nan_never_done :
+  forall cs c a, In c cs -> In a (c_asns c) -> a_p a = NaN -> summarize_status cs = false.
+Proof. exact nan_never_done. Qed.
+Print Assumptions C09_nan_never_done.
+
+(* Resetting restores p-value 1, empty history and unconfirmed status everywhere (keys and limits untouched, max_p = 1,
+   the contest dicts list the reset values) and returns True. *)
+Theorem C09_reset :
+  forall cs, exists cs', reset_p_values cs = (cs', true) /\
+  Forall2 (fun c c' =>
+    c_key c' = c_key c /\ c_limit c' = c_limit c /\ c_maxp c' = Fin 1 /\
+    Forall2 (fun a a' => a_key a' = a_key a /\ a_p a' = Fin 1 /\ a_hist a' = [] /\ a_proved a' = false) (c_asns c) (c_asns c') /\
+    (NoDup (map a_key (c_asns c)) ->
+       c_pvalues c' = map (fun a => (a_key a, Fin 1)) (c_asns c) /\
+       c_proved c' = map (fun a => (a_key a, false)) (c_asns c))) cs cs'.
+Proof. exact reset_spec. Qed.
+Print Assumptions C09_reset.
+
+Theorem C09_reset_not_done :
+  forall cs c, In c cs -> c_asns c <> [] -> c_limit c < 1 -> summarize_status (fst (reset_p_values cs)) = false.
+Proof. exact reset_not_done. Qed.
+Print Assumptions C09_reset_not_done.
+
+(* parameter sanity: what check_audit_parameters accepts has every risk limit in (0,1/2] and winners among the candidates *)
+Theorem C09_params :
+  forall e1 e2 ps, check_audit_parameters e1 e2 ps = SOk tt ->
+  forall p, In p ps -> 0 < p_limit p /\ p_limit p <= 1 # 2 /\ (forall w, In w (p_winner p) -> In w (p_candidates p)).
+Proof. exact check_params_ok. Qed.
+Print Assumptions C09_params.
+
+(* ---------------------------------------------------------------- non-vacuity *)
+(* two contests with different limits; contest 1 has two assertions, one already proved; a second sample raises the
+   proved assertion's p-value above the limit *)
+Definition ex_cs : list contest :=
+  [ mkcon 1 (1 # 20) [mkasn 11 (Fin 1) [] true; mkasn 12 (Fin 1) [] false] [] [] (Fin 0);
+    mkcon 2 (1 # 4)  [mkasn 21 (Fin 1) [] false] [] [] (Fin 0) ].
+Definition ex_test (ck ak : Z) : option (Xq * list Xq) :=
+  if Z.eqb ak 11 then Some (Fin (3 # 10), [Fin 1; Fin (3 # 10)])
+  else if Z.eqb ak 12 then Some (Fin (1 # 50), [Fin (1 # 2); Fin (1 # 50)])
+  else Some (Fin (1 # 5), [Fin (1 # 5)]).
+Example ex_set_runs :
+  exists cs', set_p_values ex_test true ex_cs = SOk (cs', Fin (3 # 10))
+    /\ map c_maxp cs' = [Fin (3 # 10); Fin (1 # 5)]
+    /\ map (fun c => map a_proved (c_asns c)) cs' = [[true; true]; [true]]
+    /\ summarize_status cs' = false.                       (* assertion 11 is "proved" but its current p-value is 0.3 > 0.05 *)
+Proof. eexists. vm_compute. repeat split; reflexivity. Qed.
+Example ex_limits_nonneg : forall c, In c ex_cs -> 0 <= c_limit c.
+Proof. intros c [<-|[<-|[]]]; simpl; lra. Qed.
+Example ex_nodup : Forall (fun c => NoDup (map a_key (c_asns c))) ex_cs.
+Proof. repeat constructor; simpl; intuition congruence. Qed.
+Example ex_done_true :
+  summarize_status [ mkcon 1 (1 # 20) [mkasn 11 (Fin (1 # 20)) [] false] [] [] (Fin 0);
+                     mkcon 2 (1 # 4) [mkasn 21 (Fin (1 # 5)) [] true; mkasn 22 (Fin 0) [] true] [] [] (Fin 0) ] = true.
+Proof. reflexivity. Qed.
+Example ex_other_contests_limit_does_not_help :         (* 0.2 <= 0.25 (contest 2's limit) but not <= 0.05 (its own) *)
+  summarize_status [ mkcon 1 (1 # 20) [mkasn 11 (Fin (1 # 5)) [] false] [] [] (Fin 0);
+                     mkcon 2 (1 # 4) [mkasn 21 (Fin (1 # 5)) [] true] [] [] (Fin 0) ] = false.
+Proof. reflexivity. Qed.
+Example ex_reset :
+  map (fun c => (c_maxp c, map a_p (c_asns c), map a_proved (c_asns c))) (fst (reset_p_values ex_cs))
+  = [(Fin 1, [Fin 1; Fin 1], [false; false]); (Fin 1, [Fin 1], [false])].
+Proof. reflexivity. Qed.
+Example ex_params :
+  check_audit_parameters (1 # 1000) 0 [mkcp 1 (1 # 20) 1 1 [1; 2; 3]%Z [2]%Z false; mkcp 2 (1 # 2) 3 1 [1; 2]%Z [1]%Z true] = SOk tt.
+Proof. reflexivity. Qed.
